@@ -240,6 +240,27 @@ class PermExec:
         for i in order:
             yield results[i]
 
+    def map(self, fn, *iterables, **_kw):
+        # the ordered variant: results come back in submission order whatever the completion order
+        _PERM["used"] += 1
+        results = [fn(*args) for args in zip(*iterables)]
+        _PERM["sizes"].append(len(results))
+        return iter(results)
+
+    def submit(self, fn, *args, **kw):
+        from concurrent.futures import Future
+
+        _PERM["used"] += 1
+        f = Future()
+        try:
+            f.set_result(fn(*args, **kw))
+        except BaseException as e:  # noqa: BLE001
+            f.set_exception(e)
+        return f
+
+    def shutdown(self, *a, **kw):
+        pass
+
 
 def content(spec):
     fill, size = spec
